@@ -242,6 +242,10 @@ def _child(wfd, root, argv, cwd, kspec, inject, env, pre, post, want_events):
                     os.environ[key] = val
         os.chdir(cwd or root)
         sys.argv = ["cond"] + list(argv)
+        if os.environ.get("VERIF_HANG_DUMP"):
+            import faulthandler
+            _hd = open(os.path.join(os.environ["VERIF_HANG_DUMP"], "hang-%d.txt" % os.getpid()), "w")
+            faulthandler.dump_traceback_later(float(os.environ.get("VERIF_HANG_AFTER", "8")), file=_hd)
         if kspec is not None:
             k = K.Kernel(kspec, root=root)
             events = k.events
